@@ -15,6 +15,7 @@ Nested scopes are assembled by `Spec.assembleScope` on their own items, so the
 statement applies to each scope with offsets counted from its own start.
 -/
 import EtkVerif.Asm.Corollaries
+import EtkVerif.Asm.ProgTextAsm
 namespace EtkVerif.C01
 open Asm
 
@@ -38,5 +39,15 @@ theorem C01_jumpdest (ms : List (String × MacroDef)) (items : List Item) (out :
     (pre post : List Item) (l : String) (hsplit : items = pre ++ Item.label l :: Item.op 0x5b none :: post) :
     ∃ p, lookupLabel a.ls l = some (some p) ∧ out[p]? = some 0x5b :=
   label_lands_on_jumpdest ms items out a himm pre post l hsplit
+
+open Asm.ProgText in
+/-- at the level of source TEXT (macro-free programs, any layout, `Asm/ProgText.lean`): if the text assembles to
+`bytes`, then there is a final layout for the statements' items — the witness to which `C01_offsets` and
+`C01_jumpdest` apply: every label's value is the number of bytes emitted before it -/
+theorem C01_text (rnd : Nat → Nat) (k : Nat) (items : List ProgText.Item) (fuel : Nat) (hf : items.length + 3 ≤ fuel)
+    (bytes : List Nat) (k' : Nat)
+    (h : assemble rnd fuel { fresh := k } (RawOps.ofList (items.map (fun x => RawOp.op x.stmt.aop))) = .ok (bytes, k')) :
+    Nonempty (Assembled [] (items.map (fun x => x.stmt.item)) bytes) :=
+  C01_layout_exists [] _ bytes ((assemble_prog rnd fuel k items hf bytes k').1 h).1
 
 end EtkVerif.C01
